@@ -1,6 +1,7 @@
 package props
 
 import (
+	"strings"
 	"fmt"
 
 	"verifharness/adapt"
@@ -52,8 +53,78 @@ func c10Exhaustive() []val.Item {
 			out = append(out, val.Item{"a": nest(b, sh), "other": val.Str("bystander")})
 		}
 	}
+	out = append(out, c10Scaled()...)
 	// several boundary members in one item
 	out = append(out, val.Item{"e1": val.Str(""), "e2": val.List(), "e3": val.Map(map[string]val.V{}), "e4": val.Bin(""), "e5": val.Bool(false), "e6": val.Null(), "e7": val.List(val.List(), val.Map(map[string]val.V{}), val.Null())})
+	return out
+}
+
+// c10Scaled: valid items on both sides of the sizes an implementation may special-case: strings and binaries of
+// 15..65537 bytes (every byte value in the binaries, multi-byte characters at every UTF-8 width in the strings),
+// lists of 17..1025 elements, sets of 17..257 members (sets of numbers that differ only beyond double precision),
+// maps of 17..257 members, items of up to 300 attributes, attribute names of up to 255 bytes, nesting of 8..32
+// levels (32 is DynamoDB's limit), a set of byte strings that are prefixes of one another.
+func c10Scaled() []val.Item {
+	out := []val.Item{}
+	long := func(n int, alphabet string) string {
+		rs := []rune(alphabet)
+		var sb strings.Builder
+		for i := 0; ; i++ {
+			c := string(rs[(i*7+i/len(rs))%len(rs)])
+			if sb.Len()+len(c) > n {
+				break
+			}
+			sb.WriteString(c)
+		}
+		for sb.Len() < n {
+			sb.WriteString("a") // fill up to exactly n bytes
+		}
+		return sb.String()
+	}
+	for _, n := range []int{15, 16, 17, 31, 32, 33, 63, 64, 65, 255, 256, 257, 1023, 1024, 1025, 4095, 4097, 65535, 65537} {
+		bin := make([]byte, n)
+		for i := range bin {
+			bin[i] = byte(i * 37)
+		}
+		it := val.Item{"s": val.Str(long(n, "abcdefghijklmnopqrstuvwxyz")), "u": val.Str(long(n, "aé日\U0001F44D\uffffz")), "b": val.Bin(string(bin)),
+			"ss": val.SS(long(n, "xy"), long(n, "xy")+"z", long(n-1, "xy")), "l": val.List(val.Str(long(n, "q")), val.Bin(string(bin))), "other": val.Str("bystander")}
+		out = append(out, it)
+	}
+	for _, n := range []int{17, 33, 65, 101, 129, 257, 1025} {
+		elems := []val.V{}
+		mem := map[string]val.V{}
+		strs, nums, bins := []string{}, []string{}, []string{}
+		for i := 0; i < n; i++ {
+			elems = append(elems, []val.V{val.Num(fmt.Sprint(i)), val.Str(fmt.Sprint("e", i)), val.Null(), val.Bool(i%2 == 0), val.List(val.Num(fmt.Sprint(i)))}[i%5])
+			mem[fmt.Sprintf("k%04d", i)] = val.Num(fmt.Sprint(i * 3))
+			if i < 257 {
+				strs = append(strs, fmt.Sprintf("m%d", i))
+				nums = append(nums, fmt.Sprintf("900719925474%d", 1000+i)) // 16-digit members: neighbours beyond 2^53
+				bins = append(bins, string([]byte{byte(i), byte(i >> 8), 0}))
+			}
+		}
+		out = append(out, val.Item{"l": val.V{K: val.KL, L: elems}, "m": val.V{K: val.KM, M: mem}, "ss": val.V{K: val.KSS, Set: strs}, "ns": val.V{K: val.KNS, Set: nums}, "bs": val.V{K: val.KBS, Set: bins}, "other": val.Str("bystander")})
+		if n <= 300 {
+			wide := val.Item{}
+			for i := 0; i < n; i++ {
+				wide[fmt.Sprintf("attr_%03d_%s", i, long(i%50, "name"))] = []val.V{val.Num(fmt.Sprint(i)), val.Str(""), val.List(), val.Bin("")}[i%4]
+			}
+			wide[long(255, "n")] = val.Str("255-byte attribute name")
+			out = append(out, wide)
+		}
+	}
+	for _, d := range []int{8, 16, 24, 31} {
+		v := val.Num("12345678901234567890123456789012345678")
+		for i := 0; i < d; i++ {
+			if i%2 == 0 {
+				v = val.List(val.List(), v, val.Str(""))
+			} else {
+				v = val.Map(map[string]val.V{"d": v, "e": val.Map(map[string]val.V{})})
+			}
+		}
+		out = append(out, val.Item{"deep": v, "other": val.Str("bystander")})
+	}
+	out = append(out, val.Item{"bs": val.BS("\x00", "\x00\x00", "\x00\x00\x00", "\x00\x01", "\xff", "\xff\x00"), "ss": val.SS("a", "aa", "aaa", "a\x00", "A", "á"), "ns": val.NS("1", "1.5", "-1", "1E-130", "9.9E125", "0.000001", "1000000"), "other": val.Str("bystander")})
 	return out
 }
 
